@@ -32,9 +32,17 @@ AddPost(p, ex, t) == IF AddOk(p, ex, t) /\ Len(p) < Limit THEN Append(p, t) ELSE
 (* --- Mark / UnMark --------------------------------------------------- *)
 MarkPost(p, ex, txs, evicted) == [pending |-> Without(p, txs \cup evicted), executed |-> ex \cup txs]
 
+(* the re-add of a reorged block's transaction ignores the pool's size limit: it must become
+   pending again *)
+ReAddPost(p, ex, t) == IF AddOk(p, ex, t) THEN Append(p, t) ELSE p
 RECURSIVE AppendAll(_, _, _)
 AppendAll(p, ex, s) ==      \* UnMark re-adds in block order through add()
-  IF s = <<>> THEN p ELSE AppendAll(AddPost(p, ex, Head(s)), ex, Tail(s))
+  IF s = <<>> THEN p ELSE AppendAll(ReAddPost(p, ex, Head(s)), ex, Tail(s))
+
+(* --- expiry: the container's ticker ages every pending transaction once a minute and drops
+   those that reach ExpiredRing ticks without having been booked -------------------------- *)
+ExpiredRing == 5
+TickPost(p, age) == SelectSeq(p, LAMBDA t : age[t] + 1 < ExpiredRing)
 UnMarkPost(p, ex, txseq) ==
   LET ex2 == ex \ SeqSet(txseq) IN [pending |-> AppendAll(p, ex2, txseq), executed |-> ex2]
 
